@@ -177,3 +177,29 @@ PROPS["C14"] = dict(
                  "UBSan alignment check disabled: SipHash reads unaligned 64-bit words by design (x86)",
                  SAN_ASSUME],
 )
+
+# ----------------------------------------------------------------------------- C09
+PROPS["C09"] = dict(
+    units={"lt": dict(src=["harness/C09_loser_tree.cpp"])},
+    quick=[
+        R("lt", "plain", 8, 150),
+        R("lt", "asan", 8, 40),
+    ],
+    thorough=[
+        R("lt", "plain", 16, 6000, timeout=7200),
+        R("lt", "asan", 16, 1500, timeout=7200),
+    ],
+    rule="a case is 30 rounds; each round draws one guarded and one unguarded game plan (k in 1..17, "
+         "31..33, 64 or random up to 70; per player a sorted key stream of length 0..14 over a universe "
+         "of 1..100 keys, ascending or descending order; guarded plans include players exhausted from "
+         "the start and all-exhausted games; unguarded plans stop before any player runs dry and in a "
+         "third of the cases contain real keys equal to the constructor sentinel) and replays it on "
+         "every variant: Copy/Pointer x stable/unstable x guarded/unguarded, plus the LoserTree<> / "
+         "LoserTreeUnguarded<> switches, for an 8-byte, a 40-byte and a heap-owning key type. After "
+         "init() and every delete_min_insert() min_source() is compared with a scan of the shadow "
+         "array. A class is a distinct (variant, k class, initially-exhausted, keys-reach-sentinel) tuple.",
+    require=dict(any=["guarded_histories", "unguarded_histories", "reports_with_ties"]),
+    assumptions=["unguarded trees are only driven within their documented precondition (no player runs "
+                 "out of keys); nothing is required of min_source() once every player is exhausted",
+                 SAN_ASSUME],
+)
